@@ -296,6 +296,8 @@ class TlSchemas:
                     if 'vector' in type_:
                         length = int.from_bytes(data[i:i + 4], 'little', signed=False)
                         i += 4
+                        if length > len(data) - i:  # every element takes at least one byte
+                            raise TlError(f'vector length {length} exceeds the remaining {len(data) - i} bytes')
                         result[field] = []
                         for _ in range(length):
                             if subtype in self.base_types:
